@@ -19,9 +19,10 @@ theorem lookup_eq {al : Align} {pad : Dim} {c : Cache} (hc : CacheOK al pad c) {
   rcases c with _ | ⟨key, a, p⟩
   · rfl
   · simp only
+    obtain ⟨h1, h2⟩ := hc key a p rfl
     split_ifs
-    · obtain ⟨h1, h2⟩ := hc key a p rfl
-      rw [h1, h2, ha, hp]
+    · rw [h1, ha]
+    · rw [h1, h2, ha, hp]
     · rfl
 
 /-- **History independence**: if the attributes `align` / `padding` are the same in every call,
@@ -80,18 +81,18 @@ theorem session_last_independent (fuel : Nat) (horizontal : Bool) (filler : Dim)
 /-- non-vacuity: the seeded witness — same object, same width 20, requirements change from
     (2..6, 1..) to (8..12, 1..5) to (15, 10): the answers follow the current requirements -/
 example : runSession 400 false ⟨0, 0, Gen.C12.defaultMax, 1⟩ none
-    [⟨[1, 2], .justify, ⟨0, 0, 0, 1⟩, [⟨2, 4, 6, 1⟩, ⟨1, 3, Gen.C12.defaultMax, 1⟩], 20, false⟩,
-     ⟨[1, 2], .justify, ⟨0, 0, 0, 1⟩, [⟨8, 10, 12, 1⟩, ⟨1, 3, 5, 1⟩], 20, false⟩,
-     ⟨[1, 2], .justify, ⟨0, 0, 0, 1⟩, [⟨15, 15, 15, 1⟩, ⟨10, 10, 10, 1⟩], 20, false⟩]
+    [⟨[1, 2], .justify, ⟨0, 0, 0, 1⟩, [⟨2, 4, 6, 1⟩, ⟨1, 3, Gen.C12.defaultMax, 1⟩], 20, false, false⟩,
+     ⟨[1, 2], .justify, ⟨0, 0, 0, 1⟩, [⟨8, 10, 12, 1⟩, ⟨1, 3, 5, 1⟩], 20, false, false⟩,
+     ⟨[1, 2], .justify, ⟨0, 0, 0, 1⟩, [⟨15, 15, 15, 1⟩, ⟨10, 10, 10, 1⟩], 20, false, false⟩]
     = [.ok [6, 0, 14], .ok [12, 0, 5], .tooSmall] := by decide +kernel
 
 /-- the proviso is needed, as the code is: reassigning `align` while the same children stay
     cached keeps the old `_all_children` (here: no filler is added for the new alignment) -/
 example : runSession 100 false ⟨0, 0, Gen.C12.defaultMax, 1⟩ none
-    [⟨[1], .justify, ⟨0, 0, 0, 1⟩, [⟨1, 1, 1, 1⟩], 5, false⟩,
-     ⟨[1], .start, ⟨0, 0, 0, 1⟩, [⟨1, 1, 1, 1⟩], 5, false⟩]
+    [⟨[1], .justify, ⟨0, 0, 0, 1⟩, [⟨1, 1, 1, 1⟩], 5, false, false⟩,
+     ⟨[1], .start, ⟨0, 0, 0, 1⟩, [⟨1, 1, 1, 1⟩], 5, false, false⟩]
     = [.ok [1], .ok [1]] ∧
-    fresh 100 false ⟨0, 0, Gen.C12.defaultMax, 1⟩ ⟨[1], .start, ⟨0, 0, 0, 1⟩, [⟨1, 1, 1, 1⟩], 5, false⟩
+    fresh 100 false ⟨0, 0, Gen.C12.defaultMax, 1⟩ ⟨[1], .start, ⟨0, 0, 0, 1⟩, [⟨1, 1, 1, 1⟩], 5, false, false⟩
     = .ok [1, 4] := by decide +kernel
 
 
@@ -131,10 +132,72 @@ theorem session_inplace_edit (fuel : Nat) (horizontal : Bool) (filler : Dim) (al
 /-- non-vacuity: children 1 and 2 are swapped in place (same two ids, same length, same
     available width): the sizes follow the new order; then child 1 is replaced by a new child 3 -/
 example : runSession 400 false ⟨0, 0, Gen.C12.defaultMax, 1⟩ none
-    [⟨[1, 2], .justify, ⟨0, 0, 0, 1⟩, [⟨2, 2, 2, 1⟩, ⟨1, 3, Gen.C12.defaultMax, 1⟩], 9, false⟩,
-     ⟨[2, 1], .justify, ⟨0, 0, 0, 1⟩, [⟨1, 3, Gen.C12.defaultMax, 1⟩, ⟨2, 2, 2, 1⟩], 9, false⟩,
-     ⟨[2, 3], .justify, ⟨0, 0, 0, 1⟩, [⟨1, 3, Gen.C12.defaultMax, 1⟩, ⟨4, 4, 4, 1⟩], 9, false⟩]
+    [⟨[1, 2], .justify, ⟨0, 0, 0, 1⟩, [⟨2, 2, 2, 1⟩, ⟨1, 3, Gen.C12.defaultMax, 1⟩], 9, false, false⟩,
+     ⟨[2, 1], .justify, ⟨0, 0, 0, 1⟩, [⟨1, 3, Gen.C12.defaultMax, 1⟩, ⟨2, 2, 2, 1⟩], 9, false, false⟩,
+     ⟨[2, 3], .justify, ⟨0, 0, 0, 1⟩, [⟨1, 3, Gen.C12.defaultMax, 1⟩, ⟨4, 4, 4, 1⟩], 9, false, false⟩]
     = [.ok [2, 0, 7], .ok [7, 0, 2], .ok [5, 0, 4]] := by decide +kernel
+
+/-! ### callable dimensions
+
+  A callable `padding`, and callable `width=` / `height=` of windows and splits, are evaluated by
+  `to_dimension` on every call (`toDimension_call`: a callable is what it returns NOW).  The
+  children's dimensions are the `dims` of each call, i.e. already their current values
+  (`session_history_independent` quantifies over them); for the padding the cached
+  `_all_children` list holds `Window(height=self.padding)` with the callable itself, so the
+  current value `call.pad` applies even on a cache hit (`padCall`). -/
+
+/-- only the alignment is frozen in the cache of a split whose padding is a callable -/
+def CacheAl (al : Align) (c : Cache) : Prop := ∀ key a p, c = some (key, a, p) → a = al
+
+/-- **Callable dimensions are read at their current value**: on one split object whose padding
+    is a callable (and whose `align` is not reassigned), every call answers what a fresh split
+    with the CURRENT value of the padding callable and the current child dimensions answers —
+    whatever the callable returned at construction time or at earlier calls. -/
+theorem session_callable_current (fuel : Nat) (horizontal : Bool) (filler : Dim) (al : Align) :
+    ∀ (calls : List Call) (c : Cache), CacheAl al c →
+      (∀ call ∈ calls, call.al = al ∧ call.padCall = true) →
+      runSession fuel horizontal filler c calls = calls.map (fresh fuel horizontal filler) := by
+  intro calls
+  induction calls with
+  | nil => intro c _ _; rfl
+  | cons call rest ih =>
+    intro c hc hall
+    obtain ⟨ha, hpc⟩ := hall call List.mem_cons_self
+    have hl : lookup c call = (call.al, call.pad) := by
+      unfold lookup
+      rcases c with _ | ⟨key, a, p⟩
+      · rfl
+      · simp only
+        split_ifs
+        · rw [hc key a p rfl, ha]
+        · rfl
+    have hstep : (callSplit fuel horizontal filler c call).2 = fresh fuel horizontal filler call ∧
+        CacheAl al (callSplit fuel horizontal filler c call).1 := by
+      unfold callSplit fresh
+      by_cases he : (horizontal && call.dims.isEmpty) = true
+      · rw [if_pos he]
+        simp only [Bool.and_eq_true] at he
+        refine ⟨?_, hc⟩
+        simp only [he.1, if_true]
+        unfold divideH
+        rw [if_pos he.2]
+      · rw [if_neg he]
+        simp only [hl]
+        refine ⟨trivial, ?_⟩
+        intro key a p h
+        simp only [Option.some.injEq, Prod.mk.injEq] at h
+        rw [← h.2.1, ha]
+    simp only [runSession, List.map_cons, hstep.1]
+    congr 1
+    exact ih _ hstep.2 (fun c' hc' => hall c' (List.mem_cons_of_mem _ hc'))
+
+/-- non-vacuity: the padding callable returns 0 at the first call and 2 afterwards; same children,
+    same width 20: the paddings follow the current value (a padding frozen at construction time
+    would give `[6, 0, 2, 0, 12]`) -/
+example : runSession 400 false ⟨0, 0, Gen.C12.defaultMax, 1⟩ none
+    [⟨[1, 2, 3], .justify, ⟨0, 0, 0, 1⟩, [⟨6, 6, 6, 1⟩, ⟨2, 2, 2, 1⟩, ⟨0, 0, Gen.C12.defaultMax, 1⟩], 20, false, true⟩,
+     ⟨[1, 2, 3], .justify, ⟨2, 2, 2, 1⟩, [⟨6, 6, 6, 1⟩, ⟨2, 2, 2, 1⟩, ⟨0, 0, Gen.C12.defaultMax, 1⟩], 20, false, true⟩]
+    = [.ok [6, 0, 2, 0, 12], .ok [6, 2, 2, 2, 8]] := by decide +kernel
 
 /-! ### sessions with the proved fuel (`runSessionB`, what the driver runs) -/
 
@@ -180,6 +243,7 @@ theorem runSessionB_no_hang (horizontal : Bool) {filler : Dim} (hf : filler.Vali
       · exact hp
       · simp only
         split_ifs
+        · exact hp
         · exact hc key a p rfl
         · exact hp
     -- what one call returns and leaves in the cache
@@ -224,9 +288,9 @@ theorem runSessionB_fresh (horizontal : Bool) (filler : Dim) (al : Align) (pad :
     exact ih _ h2 (fun c' hc' => hall c' (List.mem_cons_of_mem _ hc'))
 
 example : runSessionB false ⟨0, 0, Gen.C12.defaultMax, 1⟩ none
-    [⟨[1, 2], .justify, ⟨0, 0, 0, 1⟩, [⟨2, 4, 6, 1⟩, ⟨1, 3, Gen.C12.defaultMax, 1⟩], 20, false⟩,
-     ⟨[1, 2], .justify, ⟨0, 0, 0, 1⟩, [⟨8, 10, 12, 1⟩, ⟨1, 3, 5, 1⟩], 20, false⟩,
-     ⟨[1, 2], .justify, ⟨0, 0, 0, 1⟩, [⟨15, 15, 15, 1⟩, ⟨10, 10, 10, 1⟩], 20, false⟩]
+    [⟨[1, 2], .justify, ⟨0, 0, 0, 1⟩, [⟨2, 4, 6, 1⟩, ⟨1, 3, Gen.C12.defaultMax, 1⟩], 20, false, false⟩,
+     ⟨[1, 2], .justify, ⟨0, 0, 0, 1⟩, [⟨8, 10, 12, 1⟩, ⟨1, 3, 5, 1⟩], 20, false, false⟩,
+     ⟨[1, 2], .justify, ⟨0, 0, 0, 1⟩, [⟨15, 15, 15, 1⟩, ⟨10, 10, 10, 1⟩], 20, false, false⟩]
     = [.ok [6, 0, 14], .ok [12, 0, 5], .tooSmall] := by decide +kernel
 
 end Ptk.C12
